@@ -127,6 +127,9 @@ func histories(tier string) []History {
 // fresh slot keyed by the call value's low byte (so pre-images accumulate).
 var creation = common.FromHex("6001600055" + "6002600155" + "600d6016600039" + "600d6000f3" + "60016000540160005534805500")
 
+// codeless: SSTORE(1, 42); STOP
+var codeless = common.FromHex("602a60015500")
+
 func txFor(env *chainkit.Env, heavy bool) func(s chaintree.Shape, i int, g *core.BlockGen, sib int) {
 	return func(s chaintree.Shape, i int, g *core.BlockGen, sib int) {
 		a0 := env.Addrs[0]
@@ -135,6 +138,10 @@ func txFor(env *chainkit.Env, heavy bool) func(s chaintree.Shape, i int, g *core
 		if depth == 1 {
 			tx, _ := types.SignTx(types.NewContractCreation(g.TxNonce(a0), big.NewInt(0), 300000, big.NewInt(1), creation), env.Signer, env.Keys[0])
 			g.AddTx(tx)
+			// a second creation whose constructor stores a slot and returns no runtime code: an account with
+			// storage and without code (its storage trie hangs off a leaf that names the empty code hash)
+			tx2, _ := types.SignTx(types.NewContractCreation(g.TxNonce(a0), big.NewInt(0), 100000, big.NewInt(1), codeless), env.Signer, env.Keys[0])
+			g.AddTx(tx2)
 			return
 		}
 		if len(s.Parent) > 50 && depth%20 != 0 && depth < 130 {
